@@ -152,6 +152,31 @@ def judge(c):
     return None
 
 
+def judge_ref(rc):
+    """203YYY: a new reference value v in a sign-and-magnitude field of y bits, then the element coded against it."""
+    from pybufrkit.encoder import Encoder
+    from pybufrkit.decoder import Decoder
+    y, v = rc['y'], rc['v']
+    ids = [203000 + y, 12001, 203255, 12001]
+    x = (v + 5) / 10.0                      # raw 5 under the new reference, scale 1
+    feat = 'y=%d,%s' % (y, 'fits' if rc['fits'] else 'too-wide')
+    for cmp_, subsets in ((False, [[v, x]]), (True, [[v, x], [v, (v + 6) / 10.0]])):
+        try:
+            b = Encoder().process(pyb.flat_json(4, ids, len(subsets), cmp_, subsets)).serialized_bytes
+        except Exception:
+            continue                       # refused: always permitted
+        try:
+            got = pyb.values_of(Decoder().process(b), 0)
+        except Exception as e:
+            return (('quant', 'refval', 'decode-of-accepted:' + type(e).__name__, feat), 'new reference value %d in %d bits accepted but the result does not decode: %r' % (v, y, e))
+        if not rc['fits']:
+            return (('quant', 'refval', 'out-of-range-accepted', feat),
+                    '%s: new reference value %d does not fit %d bits (sign and magnitude) but was stored; it reads back as %r' % ('compressed' if cmp_ else 'uncompressed', v, y, got[0]))
+        if got[0] != v or not pyb.matches_scaled_int(got[1], v + 5, 1):
+            return (('quant', 'refval', 'altered', feat), 'new reference value %d / element %r read back as %r' % (v, x, got))
+    return None
+
+
 def _judge_many(cs):
     return [judge(c) for c in cs]
 
@@ -241,6 +266,16 @@ def run(run):
             run.violation(('spec', res.violated, 'Quant'), 'Quant invariant violated', tlc.error_trace(res))
         run.add_tlc(res, 'Quant: %d cases x inputs around the edges' % len(cs))
         items = list(res.iter_emitted())
+        reftab = [x for x in items if 'reftable' in x]
+        items = [x for x in items if 'reftable' not in x]
+        if not reftab:
+            raise MachineryError('Quant did not print the table of new reference values')
+        for rc in reftab[0]['reftable']:
+            run.traces += 1
+            bad = judge_ref(rc)
+            if bad:
+                run.violation(bad[0], bad[1], {'kind': 'refval', 'case': rc})
+        run.notes['new_reference_value_cases'] = len(reftab[0]['reftable'])
         chunks = [items[i:i + 60] for i in range(0, len(items), 60)]
         with mp.get_context('fork').Pool(14, initializer=fm94._init_worker) as pool:
             out = [x for c in pool.map(_judge_many, chunks) for x in c]
